@@ -400,6 +400,7 @@ type Query struct {
 	Preamble string // extra SMT text (recursive definitions etc.)
 	NoDefs   bool   // do not append the definitional facts of auxiliary symbols
 	AbsDiv   bool   // div and mod as uninterpreted functions (a weakening: only "unsat" answers are usable)
+	Layered  bool   // obligation of a layered contract (ring / module / opaque / bigint): the extra strategies take part
 }
 
 func (f *Factory) Script(q *Query, wantModel bool) string {
@@ -430,6 +431,9 @@ func (f *Factory) Script(q *Query, wantModel bool) string {
 	}
 	var out strings.Builder
 	fmt.Fprintf(&out, "; obligation %s\n", q.Name)
+	if q.Layered {
+		out.WriteString("; layered\n")
+	}
 	if wantModel {
 		out.WriteString("(set-option :produce-models true)\n")
 	}
@@ -475,6 +479,9 @@ func scriptKey(script string) string {
 // sound; goals that do not need those facts (window steps of the scalar multiplications) are then decided at once
 // (measured: 0.1 s against a time-out).
 func noDefsScript(script string) (string, bool) {
+	if !strings.Contains(script, "\n; layered\n") {
+		return "", false
+	}
 	i := strings.Index(script, "(assert (not ")
 	if i < 0 {
 		return "", false
@@ -596,6 +603,9 @@ type solverSpec struct {
 // identities over callee results that were introduced by equations then close by normalisation alone (measured:
 // a degree-6 identity 0.03 s against a timeout of the default strategy).
 func somScript(script string) (string, bool) {
+	if !strings.Contains(script, "\n; layered\n") {
+		return "", false // machine-word obligations: the default strategy is the right one, and the solver slots are scarce
+	}
 	if strings.Contains(script, "forall") || strings.Contains(script, "exists") || strings.Contains(script, "define-fun-rec") || strings.Contains(script, "(lambda") {
 		return "", false
 	}
